@@ -2,7 +2,7 @@
    Only property theorems here, each closed by [exact] and followed by Print Assumptions. *)
 From Coq Require Import List NArith ZArith Bool.
 From RPFT Require Import Base.Sexp Base.PyStr Base.Result Gen.Tables Cell.Cell Cell.CellFacts
-  Tmpl.MiniJinja Cell.CellSession Cell.CellSessionFacts.
+  Tmpl.MiniJinja Cell.CellParseFacts Cell.CellSession Cell.CellSessionFacts.
 Import ListNotations.
 Local Open Scope N_scope.
 
@@ -148,15 +148,31 @@ Theorem C08_string_roundtrip_in_history : forall st pre post octx s,
 Proof. exact string_roundtrip_in_history. Qed.
 Print Assumptions C08_string_roundtrip_in_history.
 
-(* partial: for a joined text without surrounding whitespace (parse strips the CELL first).  Full statement:
-   the same with [wfb (trim v) = true] in place of [strip txt = txt]; missing: strip (join v) = join v'
-   for the value v' whose first leaf is left-stripped and whose last leaf is right-stripped. *)
-Theorem C08_list_roundtrip_in_history_partial : forall st pre post octx v txt,
-  wfb v = true -> join_from_lists 0 v = Some txt -> strip txt = txt -> fast_path octx txt = true ->
+(* every nested list (depth <= 2, lists non-empty) whose lists do not end in a BLANK string - wfb v and wfb (trim v) -
+   survives join + PARSE (strip the cell, then split), trimmed ... *)
+Theorem C08_list_parse_roundtrip : forall v,
+  wfb v = true -> wfb (trim v) = true ->
+  exists txt, join_from_lists 0 v = Some txt /\ split_into_lists (strip txt) = trim v.
+Proof. exact list_parse_roundtrip. Qed.
+Print Assumptions C08_list_parse_roundtrip.
+
+(* ... at any point of any history of the parser ... *)
+Theorem C08_list_roundtrip_in_history : forall st pre post octx v txt,
+  wfb v = true -> wfb (trim v) = true -> join_from_lists 0 v = Some txt -> fast_path octx txt = true ->
   nth_error (snd (cp_run st (pre ++ OpParse octx (plain_cell txt) :: post))) (length pre)
   = Some (RCell (Ok (PNv (trim v)))).
 Proof. exact list_roundtrip_in_history. Qed.
-Print Assumptions C08_list_roundtrip_in_history_partial.
+Print Assumptions C08_list_roundtrip_in_history.
+
+(* ... and the condition on the trimmed value cannot be dropped (the cell "a| " is stripped before it is split) *)
+Example C08_parse_needs_nonblank_last :
+  let v := Lst [Str [97]; Str [32]] in
+  wfb v = true /\ wfb (trim v) = false
+  /\ join_from_lists 0 v = Some [97; 124; 32]
+  /\ split_into_lists [97; 124; 32] = trim v
+  /\ split_into_lists (strip [97; 124; 32]) = Lst [Str [97]].
+Proof. exact parse_needs_nonblank_last. Qed.
+Print Assumptions C08_parse_needs_nonblank_last.
 
 Theorem C08_no_sep_is_string_in_history : forall st pre post octx s,
   no_unescaped_sep (strip s) -> fast_path octx s = true ->
